@@ -7,6 +7,7 @@ import (
 	"fmt"
 	"math/rand"
 	"strings"
+	"sync"
 
 	"github.com/emitter-io/emitter/internal/security"
 	"github.com/emitter-io/emitter/internal/security/license"
@@ -128,6 +129,67 @@ func Run(c *core.Ctx) {
 			}
 		}
 		add(map[string]any{"e": "keyinj", "ver": v, "n": len(distinctKeys), "distinct": len(seen)})
+		// the broker has ONE cipher per license, used by every connection's goroutine: the same contract when 8 goroutines
+		// encrypt and decrypt distinct keys through it at once (one event per goroutine: all of its round trips)
+		{
+			rounds := 4000
+			if !c.Quick() {
+				rounds = 60000
+			}
+			type res struct {
+				panicked, err, urlsafe, equal bool
+				length                        int
+				strs                          map[string]string
+			}
+			out := make([]res, 8)
+			var wg sync.WaitGroup
+			for g := 0; g < 8; g++ {
+				wg.Add(1)
+				go func(g int) {
+					defer wg.Done()
+					r := rand.New(rand.NewSource(c.Seed*77 + int64(g)))
+					o := res{urlsafe: true, equal: true, length: 32, strs: map[string]string{}}
+					for i := 0; i < rounds; i++ {
+						k := security.Key(make([]byte, 24))
+						r.Read(k)
+						k[0], k[1] = byte(g), byte(i) // distinct across goroutines
+						k[2], k[3] = byte(i>>8), byte(i>>16)
+						var s string
+						var e1, e2 error
+						var back security.Key
+						if guard(func() {
+							s, e1 = ciph.EncryptKey(k)
+							if e1 == nil {
+								back, e2 = ciph.DecryptKey([]byte(s))
+							}
+						}) {
+							o.panicked = true
+						}
+						if e1 != nil || e2 != nil {
+							o.err = true
+						}
+						if len(s) != 32 {
+							o.length = len(s)
+						}
+						o.urlsafe = o.urlsafe && urlsafe(s)
+						o.equal = o.equal && bytes.Equal(back, k)
+						o.strs[s] = string(k)
+					}
+					out[g] = o
+				}(g)
+			}
+			wg.Wait()
+			all := map[string]bool{}
+			for g, o := range out {
+				add(map[string]any{"e": "keyrt", "ver": v, "class": map[string]any{"salt": "concurrent", "body": fmt.Sprintf("goroutine %d of 8 on one cipher", g), "perms": 0},
+					"panic": o.panicked, "err": o.err, "len": o.length, "urlsafe": o.urlsafe, "equal": o.equal})
+				for s := range o.strs {
+					all[s] = true
+				}
+			}
+			add(map[string]any{"e": "keyinj", "ver": v, "n": 8 * rounds, "distinct": len(all)})
+			c.Add("concurrent_round_trips", int64(8*rounds))
+		}
 		// malformed key strings
 		good, _ := ciph.EncryptKey(security.Key(make([]byte, 24)))
 		for _, bk := range grid.BadKeys {
